@@ -84,6 +84,12 @@ func runC05(c *ShardCtx) {
 						{Name: "E", Expr: peg.Choice(peg.Seq(peg.Ref("E"), op()), base())}, {Name: "T", Expr: peg.Seq(lit("a"), st())}}},
 					&peg.Grammar{Rules: []*peg.Rule{{Name: "S", Expr: peg.Action(0, peg.Seq(peg.Star(peg.Seq(peg.Ref("E"), peg.Opt(lit("b")))), peg.AndCode(0)))},
 						{Name: "E", Expr: peg.Choice(peg.Action(0, peg.Seq(peg.Ref("E"), op())), base())}, {Name: "T", Expr: peg.Seq(lit("a"), st())}}},
+					// the recursive rule reached a SECOND time at the same offset: after a rolled-back
+					// alternative, after a lookahead
+					&peg.Grammar{Rules: []*peg.Rule{{Name: "S", Expr: peg.Action(0, peg.Seq(peg.Choice(peg.Seq(peg.Ref("E"), lit("b"), lit("b")), peg.Label("v", peg.Ref("E"))), peg.AndCode(0)))},
+						{Name: "E", Expr: peg.Choice(peg.Seq(peg.Ref("E"), op()), base())}, {Name: "T", Expr: peg.Seq(lit("a"), st())}}},
+					&peg.Grammar{Rules: []*peg.Rule{{Name: "S", Expr: peg.Action(0, peg.Seq(peg.And(peg.Ref("E")), peg.Label("v", peg.Ref("E")), peg.AndCode(0)))},
+						{Name: "E", Expr: peg.Choice(peg.Seq(peg.Ref("E"), op()), base())}, {Name: "T", Expr: peg.Seq(lit("a"), st())}}},
 				)
 			}
 		}
